@@ -1,7 +1,7 @@
 --------------------------- MODULE GenericBehaviourJudge ---------------------------
 EXTENDS GenericBehaviourCases, Judge
 Check(name, b) == IF b THEN {} ELSE {name}
-Kind(o) == IF o.beh = "VfProbe" THEN "small-strain" ELSE IF o.beh = "VfProbeGL" THEN "green-lagrange" ELSE "hencky"
+Kind(o) == IF o.beh = "VfProbe" THEN "small-strain" ELSE IF o.beh = "VfProbeGL" THEN "green-lagrange" ELSE IF o.beh = "VfProbeFS" THEN "finite-strain" ELSE "hencky"
 Fails2(o) ==
   \* C39: return value and selected computation
   Check("C39:return-value:" \o Kind(o), o.ret = ExpectedRet(o))
